@@ -105,7 +105,7 @@ def run(P, R):
     ps = P.unit('SupervisorProxyServer.push_publication')
     fms = factmap(ps)
     pm = [x for x in own_nodes(ps.node) if isinstance(x, ast.Call) and call_text(x) == 'proxy.push_message']
-    ok = len(pm) == 1 and {tuple(f) for f in fms.at(pm[0])} == {('identifier != self.local_identifier', True),
+    ok = len(pm) == 1 and {tuple(f) for f in fms.at(pm[0])} == {('identifier == self.local_identifier', False),
                                                                 ('identifier == self.local_identifier', False),
                                                                 ('proxy', True)} and \
         any(isinstance(l, ast.For) and ast.unparse(l.iter) == 'self.supvisors.mapper.instances' for l in own_nodes(ps.node))
